@@ -19,6 +19,8 @@ pub struct ReqSpec {
     pub hops: Vec<(u16, String)>,
     pub policy_same_host: bool,
     pub despite_first: bool,
+    /// indices (mod 3) of added headers whose HeaderValue carries the `sensitive` flag (not part of the bytes)
+    pub sensitive: bool,
 }
 
 pub fn version_of(v: &str) -> Version {
@@ -142,8 +144,12 @@ pub fn build_sut(s: &ReqSpec) -> Option<Built> {
             if s.despite && s.despite_first {
                 f.send_body_despite_method();
             }
-            for (n, v) in &s.added {
-                f.header(n.as_str(), HeaderValue::from_bytes(v).expect("harness: header value")).ok()?;
+            for (k, (n, v)) in s.added.iter().enumerate() {
+                let mut hv = HeaderValue::from_bytes(v).expect("harness: header value");
+                if s.sensitive && k % 2 == 0 {
+                    hv.set_sensitive(true);
+                }
+                f.header(n.as_str(), hv).ok()?;
             }
             if s.despite && !s.despite_first {
                 f.send_body_despite_method();
@@ -383,7 +389,8 @@ pub fn exercise(t: &mut Tracer, s: &ReqSpec, rng: &mut StdRng, nsched: usize, ch
             0 => vec![maxline + 2],
             1 => vec![maxline],
             2 => vec![maxline - 1],
-            3 => vec![maxline + 1],
+            // too small for the next row, then roomy: a refused call must leave nothing behind
+            3 => (0..2 * lens.len() + 4).map(|j| if j % 2 == 0 { lens.get(j / 2).copied().unwrap_or(2).saturating_sub(1 + j % 3) } else { 2 * maxline + 8 }).collect(),
             4 => lens.iter().map(|&l| l).collect(),
             5 => lens.iter().enumerate().map(|(i, &l)| if i % 2 == 0 { l.saturating_sub(1) } else { l + 1 }).collect(),
             6 => vec![rng.gen_range(0..maxline + 4)],
@@ -462,7 +469,7 @@ pub fn c02(o: &Opts, t: &mut Tracer) -> Value {
         let mut added = gen_headers(&mut rng, nadded);
         // explicit or missing Host
         match i % 4 {
-            0 => orig.push(("host".into(), b"explicit.test".to_vec())),
+            0 => orig.push(("host".into(), if i % 12 == 8 { vec![] } else { b"explicit.test".to_vec() })),
             1 if api == "flow" => added.push(("Host".into(), b"added-host.test:81".to_vec())),
             _ => {}
         }
@@ -501,7 +508,7 @@ pub fn c02(o: &Opts, t: &mut Tracer) -> Value {
             added.push(("Authorization".into(), b"Bearer set-by-caller".to_vec()));
             t.class("c02:credentials-added-on-redirected");
         }
-        let s = ReqSpec { method: method.into(), version, uri, orig, added, despite, api, hops, policy_same_host, despite_first: i % 4 < 2 };
+        let s = ReqSpec { method: method.into(), version, uri, orig, added, despite, api, hops, policy_same_host, despite_first: i % 4 < 2, sensitive: i % 5 == 3 };
         t.sig(format!("c02/{}/{}/{}/{}/{}/{}", method, version, api, depth, norig.min(13), nadded.min(7)));
         exercise(t, &s, &mut rng, if o.quick() { 5 } else { 8 }, true, "c02");
     }
@@ -582,7 +589,7 @@ pub fn c16(o: &Opts, t: &mut Tracer) -> Value {
         if despite {
             t.class("c16:despite");
         }
-        let s = ReqSpec { method: method.into(), version: "1.1", uri: "http://h.test/start/page".into(), orig, added, despite, api: "flow", hops, policy_same_host: i % 2 == 1, despite_first: i % 2 == 0 };
+        let s = ReqSpec { method: method.into(), version: "1.1", uri: "http://h.test/start/page".into(), orig, added, despite, api: "flow", hops, policy_same_host: i % 2 == 1, despite_first: i % 2 == 0, sensitive: i % 3 == 1 };
         t.sig(format!("c16/{}/{}/{}/{}", method, depth, nadd.min(10), i % 2));
         if depth > 0 && nadd > 0 {
             t.class("c16:added-on-redirected");
@@ -595,9 +602,9 @@ pub fn c16(o: &Opts, t: &mut Tracer) -> Value {
 pub fn c17(o: &Opts, t: &mut Tracer) -> Value {
     let mut rng = rng_for(o.seed, 0xC17);
     let versions = ["0.9", "1.0", "1.1", "2", "3"];
-    let hosts = ["none", "orig", "added", "orig+added", "two-orig", "nontext"];
-    let cls = ["none", "5", "0", "two", "-1", "abc", "nonutf8", "added5", "orig+added"];
-    let tes = ["none", "chunked", "nontext", "added-chunked"];
+    let hosts = ["none", "orig", "added", "orig+added", "two-orig", "nontext", "empty"];
+    let cls = ["none", "5", "0", "two", "-1", "abc", "nonutf8", "added5", "orig+added", "empty", "list"];
+    let tes = ["none", "chunked", "nontext", "added-chunked", "gzip+chunked", "chunked+added-gzip", "gzip"];
     let mut n = 0usize;
     for (vi, v) in versions.iter().enumerate() {
         for (mi, m) in ALL_METHODS.iter().enumerate() {
@@ -631,6 +638,7 @@ pub fn c17(o: &Opts, t: &mut Tracer) -> Value {
                                         orig.push(("host".into(), b"o2.test".to_vec()));
                                     }
                                     "nontext" => orig.push(("host".into(), vec![b'h', 0xE9, b't'])),
+                                    "empty" => orig.push(("host".into(), vec![])),
                                     _ => {}
                                 }
                                 match *c {
@@ -648,17 +656,29 @@ pub fn c17(o: &Opts, t: &mut Tracer) -> Value {
                                         orig.push(("content-length".into(), b"5".to_vec()));
                                         added.push(("Content-Length".into(), b"5".to_vec()));
                                     }
+                                    "empty" => orig.push(("content-length".into(), vec![])),
+                                    "list" => orig.push(("content-length".into(), b"5, 5".to_vec())),
                                     _ => {}
                                 }
                                 match *te {
                                     "chunked" => orig.push(("transfer-encoding".into(), b"chunked".to_vec())),
                                     "nontext" => orig.push(("transfer-encoding".into(), vec![0xE9, 0xE9])),
                                     "added-chunked" => added.push(("transfer-encoding".into(), b"CHUNKED".to_vec())),
+                                    // the coding may sit on a later Transfer-Encoding line
+                                    "gzip+chunked" => {
+                                        orig.push(("transfer-encoding".into(), b"gzip".to_vec()));
+                                        orig.push(("transfer-encoding".into(), b"chunked".to_vec()));
+                                    }
+                                    "chunked+added-gzip" => {
+                                        orig.push(("transfer-encoding".into(), b"Chunked".to_vec()));
+                                        added.push(("transfer-encoding".into(), b"gzip".to_vec()));
+                                    }
+                                    "gzip" => orig.push(("transfer-encoding".into(), b"gzip".to_vec())),
                                     _ => {}
                                 }
                                 orig.extend(gen_headers(&mut rng, (n % 3) as usize));
                                 let hops = if redirected { vec![([302u16, 301, 307, 303][n % 4], ["/next", "http://b.test/x"][(n / 4) % 2].to_string())] } else { vec![] };
-                                let s = ReqSpec { method: m.to_string(), version: v, uri: "http://u.test/p?q=1".into(), orig, added, despite, api, hops, policy_same_host: n % 3 == 0, despite_first: n % 2 == 0 };
+                                let s = ReqSpec { method: m.to_string(), version: v, uri: "http://u.test/p?q=1".into(), orig, added, despite, api, hops, policy_same_host: n % 3 == 0, despite_first: n % 2 == 0, sensitive: false };
                                 t.sig(format!("c17/{}/{}/{}/{}/{}/{}/{}/{}", v, m, h, c, te, despite, api, redirected));
                                 exercise(t, &s, &mut rng, 1, true, "c17");
                             }
